@@ -67,6 +67,11 @@ def run(ctx):
     rule_meta(ctx, rci)
     rule_vlq(ctx, rci)
     rule_bpm_assignment(ctx, rci)
+    # the round trip is reader o writer: the reader rules above decode exactly what the writer's primitives emit;
+    # that the writer emits the music's event stream (delays included) is C16's stream rule, discharged here as well
+    from . import c16
+    c16.rule_stream(ctx, R="R-C17-W")
+    ctx.floor("R-C17-W", 40)
     ctx.floor("R-C17-1", 8)
     ctx.floor("R-C17-2", 20)
     ctx.floor("R-C17-3", 30 + 5 + 1)
